@@ -53,3 +53,82 @@ Proof. exact group_empty. Qed.
 Theorem C09_empty_merge : forall (E : Type), merge_spec E [] = JArr [].
 Proof. exact merge_empty. Qed.
 Print Assumptions C09_empty_merge.
+
+(* the whole program: go with --group-by / --merge writes exactly one row, the collection of the rows that go without it writes (also when there are none) *)
+From Jawk Require Import Base Json Reader Ctx Printer Expr Chain PipelineSpec Go ProgramProofs.
+
+Theorem C09_program_group_by :
+  forall (cf : cfg) (k : list byte) (fname : option str) (evs : list ev) (b : bool)
+      (p : printer) (sts : list stage) (hdr : list byte),
+    c_group cf = Some (Some k) ->
+    c_on_error cf = OnIgnore ->
+    Forall (fun e : ev => e <> EErr) evs ->
+    build_pipeline cf = Some (p, sts) ->
+    start_output p (titles expr sts []) (c_rowsep cf) = Some hdr ->
+    (forall t : N, c_take cf = Some t -> (c_skip cf + t <= 18446744073709551615)%N) ->
+    exists (pre : list stage) (e : expr),
+      ExprParser.parse_whole k = Some e /\
+      build_pipeline (no_group cf) = Some (p, pre) /\
+      start_output p (titles expr pre []) (c_rowsep (no_group cf)) = Some [] /\
+      (let cs := fst (fst (ctxs_of_input cf fname evs)) in
+       let rows := spec expr get pre cs in
+       g_result (go (no_group cf) [(fname, evs)] b) = GOk /\
+       g_events (go (no_group cf) [(fname, evs)] b) = emit cf p (length (titles expr pre [])) rows /\
+       g_result (go cf [(fname, evs)] b) = GOk /\
+       g_events (go cf [(fname, evs)] b) =
+       [OOut (print_row p 0 (c_rowsep cf) (new_with_no_context (group_spec expr get e rows)))] /\
+       (rows = [] ->
+        g_events (go cf [(fname, evs)] b) =
+        [OOut (print_row p 0 (c_rowsep cf) (new_with_no_context (JObj [])))])).
+Proof. exact program_group_by. Qed.
+Print Assumptions C09_program_group_by.
+
+Theorem C09_program_merge :
+  forall (cf : cfg) (fname : option str) (evs : list ev) (b : bool) (p : printer)
+      (sts : list stage) (hdr : list byte),
+    c_group cf = Some None ->
+    c_on_error cf = OnIgnore ->
+    Forall (fun e : ev => e <> EErr) evs ->
+    build_pipeline cf = Some (p, sts) ->
+    start_output p (titles expr sts []) (c_rowsep cf) = Some hdr ->
+    (forall t : N, c_take cf = Some t -> (c_skip cf + t <= 18446744073709551615)%N) ->
+    exists pre : list stage,
+      build_pipeline (no_group cf) = Some (p, pre) /\
+      start_output p (titles expr pre []) (c_rowsep (no_group cf)) = Some [] /\
+      (let cs := fst (fst (ctxs_of_input cf fname evs)) in
+       let rows := spec expr get pre cs in
+       g_result (go (no_group cf) [(fname, evs)] b) = GOk /\
+       g_events (go (no_group cf) [(fname, evs)] b) = emit cf p (length (titles expr pre [])) rows /\
+       g_result (go cf [(fname, evs)] b) = GOk /\
+       g_events (go cf [(fname, evs)] b) =
+       [OOut (print_row p 0 (c_rowsep cf) (new_with_no_context (JArr (map build rows))))] /\
+       (rows = [] ->
+        g_events (go cf [(fname, evs)] b) =
+        [OOut (print_row p 0 (c_rowsep cf) (new_with_no_context (JArr [])))])).
+Proof. exact program_merge. Qed.
+Print Assumptions C09_program_merge.
+
+Theorem C09_program_collect :
+  forall (cf : cfg) (g : option (list byte)) (fname : option str) (evs : list ev)
+      (b : bool) (p : printer) (sts : list stage) (hdr : list byte),
+    c_group cf = Some g ->
+    c_on_error cf = OnIgnore ->
+    Forall (fun e : ev => e <> EErr) evs ->
+    build_pipeline cf = Some (p, sts) ->
+    start_output p (titles expr sts []) (c_rowsep cf) = Some hdr ->
+    (forall t : N, c_take cf = Some t -> (c_skip cf + t <= 18446744073709551615)%N) ->
+    exists (pre : list stage) (o : option expr),
+      group_key g = Some o /\
+      sts = pre ++ [collector_stage o] /\
+      hdr = [] /\
+      build_pipeline (no_group cf) = Some (p, pre) /\
+      start_output p (titles expr pre []) (c_rowsep (no_group cf)) = Some [] /\
+      (let cs := fst (fst (ctxs_of_input cf fname evs)) in
+       let rows := spec expr get pre cs in
+       g_result (go (no_group cf) [(fname, evs)] b) = GOk /\
+       g_events (go (no_group cf) [(fname, evs)] b) = emit cf p (length (titles expr pre [])) rows /\
+       g_result (go cf [(fname, evs)] b) = GOk /\
+       g_events (go cf [(fname, evs)] b) =
+       [OOut (print_row p 0 (c_rowsep cf) (new_with_no_context (collection o rows)))]).
+Proof. exact program_collect. Qed.
+Print Assumptions C09_program_collect.
